@@ -96,6 +96,41 @@ def run(ctx):
     cmp_all("user_can_kick", ["self", "a"], (dict(a=a, kick=b) for a, b in itertools.product(LV, LV)), lambda k: k["a"] >= k["kick"], "sender >= kick")
     cmp_all("user_can_unban", ["self", "a"], (dict(a=a, kick=x, ban=b) for a, x, b in itertools.product(LV, LV, LV)), lambda k: k["a"] >= k["ban"] and k["a"] >= k["kick"], "sender >= ban and kick")
     cmp_all("user_can_trigger_room_notification", ["self", "a"], (dict(a=a, notif=x) for a, x in itertools.product(LV, LV)), lambda k: k["a"] >= k["notif"], "sender >= notifications.room")
+    # redaction: own events need the level of m.room.redaction; events of others additionally the `redact` level (the authorization rules accept a
+    # redaction event from its required level on; whether it takes effect on somebody else's event is the `redact` test)
+    for name, want_fn in (("user_can_redact_own_event", lambda a_, rq, rd: a_ >= rq), ("user_can_redact_event_of_other", lambda a_, rq, rd: a_ >= rq and a_ >= rd)):
+        fr_ = w.fn(H + name)
+        pr_ = dex.paths(fr_, [D.sym("self"), D.sym("a")])
+        badr, kr = [], 0
+        for a_, rq, rd in itertools.product(LV, LV, LV):
+            sc = A.Scenario(ints=[(r"^RoomPowerLevels::for_user\(self, a\)$", a_), (r"^RoomPowerLevels::for_message\(self, MessageLikeEventType::RoomRedaction\)$", rq),
+                                  (r"^self\.redact$", rd)])
+            got = helper_truth(pr_, sc)
+            kr += 1
+            if got != {want_fn(a_, rq, rd)}:
+                badr.append((dict(a=a_, redaction_event_level=rq, redact=rd), got, want_fn(a_, rq, rd)))
+        n += kr
+        ctx.check(not badr, rule, f"{rule}:{name}", w.where(fr_), ok_msg=f"{kr} orderings agree", bad_msg=f"{len(badr)} disagreements, first {badr[:2]}")
+    # changing somebody's power level: the sender may send m.room.power_levels and the `users` entry rule of the authorization rules admits SOME change
+    # of the target's entry (an absent entry is not compared with anything: users_default plays no part in that rule)
+    fch = w.fn(H + "user_can_change_user_power_level")
+    pch = dex.paths(fch, [D.sym("self"), D.sym("a"), D.sym("t")])
+    badc, kc = [], 0
+    for a_, req, same, listed, c_, d_ in itertools.product(LV, LV, (False, True), (False, True), LV, LV):
+        cur = c_ if listed else None
+        sc = A.Scenario(ints=[(r"^RoomPowerLevels::for_user\(self, a\)$", a_), (r"^RoomPowerLevels::for_state\(self, StateEventType::RoomPowerLevels\)$", req),
+                              (r"^BTreeMap::get\(self\.users, t\)\.Some\.0$", c_), (r"^RoomPowerLevels::for_user\(self, t\)$", c_ if listed else d_)],
+                        eqs=[(r"^(a==t|t==a)$", same)], wrappers=[(r"^BTreeMap::get\(self\.users, t\)$", "Some" if listed else "None")])
+        got = helper_truth(pch, sc)
+        can_send = spec.top_level(dict(top, sender_pl=a_, required_pl=req), flags0) == "allow"       # the required-level test of the top-level rules
+        some_change = any(spec.users_entry_change(dict(current=cur, new=nv, user_is_sender=same, sender_pl=a_), {}) == "ok" for nv in (None, a_ - 1, a_) if nv != cur)
+        want = can_send and some_change
+        kc += 1
+        if got != {want}:
+            badc.append((dict(a=a_, required=req, same_user=same, target_entry=cur, users_default=d_), got, want))
+    n += kc
+    ctx.check(not badc, rule, f"{rule}:user_can_change_user_power_level", w.where(fch), ok_msg=f"{kc} scenarios agree with the `users` entry rule",
+              bad_msg=f"{len(badc)} disagreements with the authorization rules (m.room.power_levels `users` entry), first {badc[:2]}")
     ctx.count("orderings", n)
 
     # ---- level getters ---------------------------------------------------------------------------------------
